@@ -310,6 +310,57 @@ def predicate_table(ctx, crate, pred_path, rid):
                 a1 = local.peel(r[2][1])
                 if a0 == ("param", 2) and a1[0] == "upvar":
                     ok_clo = True
+    if not ok_clo and isinstance(clo, ccp.Agg) and clo.kind == "closure" and crate.body(clo.label) is not None \
+            and len(clo.fields) == 1 and isinstance(ccp.strip_ref(clo.fields[0]), ccp.Sym) and ccp.strip_ref(clo.fields[0]).key() == c.key():
+        # a membership test written differently over the same verified ranges (e.g. `r.low <= c && c <= r.high`): decided by its paths
+        cb = crate.body(clo.label)
+        verdict = None
+        try:
+            env = ccp.Agg("closure", cb.path, None, [ccp.Ref(ccp.Cell(ccp.Sym("c")))])
+            ls = ccp.Machine([crate]).run(cb, [ccp.Ref(ccp.Cell(env)), ccp.Ref(ccp.Cell(ccp.Sym("r")))])
+            norm_atoms = set()
+            good = True
+            for l in ls:
+                if l.kind != "return":
+                    good = False
+                    break
+                atoms = list(l.label)
+                v = l.value
+                if isinstance(v, ccp.Const) and isinstance(v.v, bool):
+                    if not v.v:
+                        continue
+                else:
+                    atoms.append((ccp.show(v), "True"))
+                here = set()
+                for a, val in atoms:
+                    m_ = re.match(r"^(Le|Ge|Lt|Gt)\((.+), (.+)\)$", a)
+                    if not m_ or val not in ("True", "False"):
+                        good = False
+                        break
+                    op, x_, y_ = m_.group(1), m_.group(2), m_.group(3)
+                    if val == "False":
+                        op = {"Le": "Gt", "Ge": "Lt", "Lt": "Ge", "Gt": "Le"}[op]
+                    if op in ("Ge", "Gt"):
+                        op, x_, y_ = {"Ge": "Le", "Gt": "Lt"}[op], y_, x_
+                    here.add((op, x_.replace("*", "").replace("&", ""), y_.replace("*", "").replace("&", "")))
+                if not good:
+                    break
+                norm_atoms |= {frozenset(here)}
+            if good and norm_atoms == {frozenset({("Le", "r.low", "c"), ("Le", "c", "r.high")})}:
+                verdict = "ok"
+            elif good and norm_atoms and all(any(op == "Lt" for op, _, _ in fs) for fs in norm_atoms):
+                verdict = "open"
+        except Exception:
+            verdict = None
+        if verdict == "ok":
+            ok_clo = True
+        elif verdict == "open":
+            ctx.violation(rid, (pred_path, "membership closure"), "the membership test excludes an end point of the table's rows (strict comparison): the first or last code point of every row is "
+                          "reported as not in the class", b.loc())
+            return None
+        else:
+            ctx.undecided(rid, pred_path, "the membership test over the table's ranges is neither `range.contains(c)` nor a comparison with both end points that this analysis can read", b.loc())
+            return None
     if not ok_clo:
         ctx.violation(rid, (pred_path, "membership closure"),
                       "predicate's closure is not `|range| range.contains(c)` with c the predicate's parameter (inclusive CharRange::contains)", b.loc())
